@@ -145,13 +145,13 @@ def chain_runs(args):
     # a chunk of runs takes about a second; a simulation that has not come back after 240 s is reported as
     # "did not return" (a chain of N0 individuals has at most 2*N0 events)
     signal.signal(signal.SIGALRM, _alarm)
-    signal.alarm(240)
+    signal.setitimer(signal.ITIMER_REAL, 240, 5)     # repeating, in case the first exception is swallowed by a finalizer
     try:
         out = _chain_rows(m, variant, times, n, state, form=seed)
     except _NoReturn:
         out = [None] * n
     finally:
-        signal.alarm(0)
+        signal.setitimer(signal.ITIMER_REAL, 0)
     return out
 
 
